@@ -57,6 +57,9 @@ def make_detector(kind: str = "ccd", rows: int = 2, cols: int = 3, **geo_kw):
                                  CCDGeometry, Characteristics, CMOSGeometry, Environment,
                                  MKIDGeometry)
     env = Environment(temperature=200.0)
+    geo_kw.setdefault("pixel_vert_size", 10.0)
+    geo_kw.setdefault("pixel_horz_size", 16.0)
+    geo_kw.setdefault("total_thickness", 40.0)
     if kind == "ccd":
         return CCD(geometry=CCDGeometry(row=rows, col=cols, **geo_kw), environment=env,
                    characteristics=Characteristics())
@@ -69,8 +72,7 @@ def make_detector(kind: str = "ccd", rows: int = 2, cols: int = 3, **geo_kw):
     if kind == "apd":
         return APD(geometry=APDGeometry(row=rows, col=cols, **geo_kw), environment=env,
                    characteristics=APDCharacteristics(roic_gain=1.0, avalanche_gain=2.0,
-                                                      pixel_reset_voltage=5.0,
-                                                      common_voltage=3.0))
+                                                      pixel_reset_voltage=5.0))
     raise ValueError(kind)
 
 
@@ -86,7 +88,7 @@ def level_array(level: int, shape, dtype="float64", ramped: bool = True) -> np.n
     """The array that stands for integer `level` in a bucket."""
     dt = np.dtype(dtype)
     if dt.kind == "u":
-        arr = np.full(shape, level * 8, dtype=np.int64) + (ramp(shape).astype(np.int64) if ramped else 0)
+        arr = np.full(shape, level, dtype=np.int64) + (ramp(shape).astype(np.int64) if ramped else 0)
         return arr.astype(dt)
     arr = np.full(shape, float(level)) + (ramp(shape) / 8.0 if ramped else 0.0)
     return arr.astype(dt)
@@ -102,8 +104,8 @@ def level_of(arr) -> int:
     if a.dtype.kind in "ui":
         a = a.astype(np.int64)
         for cand in (a - ramp(a.shape).astype(np.int64), a):
-            if (cand == cand.flat[0]).all() and cand.flat[0] % 8 == 0:
-                return int(cand.flat[0] // 8)
+            if (cand == cand.flat[0]).all():
+                return int(cand.flat[0])
         return NONUNIFORM
     if a.dtype.kind != "f":
         return NONUNIFORM
@@ -127,7 +129,7 @@ def scene_token(scene) -> int:
     try:
         if data is None or "list" not in data:
             return EMPTY
-        return int(data["/list/0"]["weight"].values[0])
+        return int(data["list/0"]["weight"].values[0])
     except Exception:
         return NONUNIFORM
 
@@ -136,15 +138,15 @@ def make_scene_source(token: int):
     import xarray as xr
     return xr.Dataset(
         {"x": ("ref", [0.0]), "y": ("ref", [0.0]), "weight": ("ref", [float(token)]),
-         "flux": (("ref", "wavelength"), [[1.0]])},
-        coords={"ref": [0], "wavelength": [500.0]})
+         "flux": (("ref", "wavelength"), [[1.0, 1.0, 1.0]])},
+        coords={"ref": [0], "wavelength": [500.0, 510.0, 520.0]})   # same grid as the 3-D photon probe
 
 
 def data_token(tree) -> int:
     try:
         if tree is None or "probe" not in tree:
             return EMPTY
-        return int(tree["/probe"]["tok"].values)
+        return int(tree["probe"]["tok"].values)
     except Exception:
         return NONUNIFORM
 
@@ -297,13 +299,61 @@ def model_dict(model: dict, imgdt: str, extra: dict | None = None) -> dict:
             "arguments": arguments}
 
 
-def build_pipeline(cfg: dict, extra: dict | None = None):
+def flux_file(value: float, shape=(2, 3)) -> str:
+    """An .npy file holding a uniform frame (input of load_charge / load_image)."""
+    d = os.path.join(os.environ.get("VERIF_WORK", VERIF + "/.work"), "flux_files")
+    os.makedirs(d, exist_ok=True)
+    f = os.path.join(d, f"uniform_{shape[0]}x{shape[1]}_{value!r}.npy")
+    if not os.path.exists(f):
+        tmp = f + f".{os.getpid()}.tmp.npy"
+        np.save(tmp, np.full(shape, float(value)))
+        os.replace(tmp, f)
+    return f
+
+
+def real_model_dict(model: dict, variant: int, shape=(2, 3)) -> dict:
+    """The library model that stands for an abstract flux / conv / collect model.
+    `base` is the rate per tick: level per second = base * TICK."""
+    kind, b, base = model["kind"], model["b"], model["base"]
+    name, en = model["name"], bool(model["enabled"])
+    if kind == "flux" and b == "photon":
+        if variant % 3 == 0:
+            return {"func": "pyxel.models.photon_collection.illumination", "name": name, "enabled": en,
+                    "arguments": {"level": float(base * TICK), "option": "uniform"}}
+        if variant % 3 == 1:   # same flux expressed with another time scale
+            return {"func": "pyxel.models.photon_collection.illumination", "name": name, "enabled": en,
+                    "arguments": {"level": float(base), "time_scale": 1.0 / TICK}}
+        return {"func": "pyxel.models.photon_collection.load_image", "name": name, "enabled": en,
+                "arguments": {"image_file": flux_file(float(base * TICK), shape), "convert_to_photons": False}}
+    if kind == "flux" and b == "charge":
+        if variant % 2 == 0:
+            return {"func": "pyxel.models.charge_generation.load_charge", "name": name, "enabled": en,
+                    "arguments": {"filename": flux_file(float(base * TICK), shape)}}
+        return {"func": "pyxel.models.charge_generation.load_charge", "name": name, "enabled": en,
+                "arguments": {"filename": flux_file(float(base), shape), "time_scale": 1.0 / TICK}}
+    if kind == "conv":
+        return {"func": "pyxel.models.charge_generation.simple_conversion", "name": name, "enabled": en,
+                "arguments": {"quantum_efficiency": base / 2.0, "binomial_sampling": False}}
+    if kind == "collect":
+        return {"func": "pyxel.models.charge_collection.simple_collection", "name": name, "enabled": en}
+    raise ValueError(kind)
+
+
+REAL_KINDS = ("flux", "conv", "collect")
+
+
+def build_pipeline(cfg: dict, extra: dict | None = None, real: int | None = None, shape=(2, 3)):
+    """`real` = None: every model is a probe; otherwise flux/conv/collect models are the
+    library's own models (variant number `real`)."""
     from pyxel.pipelines import DetectionPipeline, ModelFunction
     kw = {}
     for k, gname in enumerate(GROUPS):
         models = cfg["pipe"][k]
         if models:
-            kw[gname] = [ModelFunction(**model_dict(m, cfg.get("imgdt", "uint16"), extra)) for m in models]
+            kw[gname] = [ModelFunction(**(real_model_dict(m, real, shape)
+                                          if real is not None and m["kind"] in REAL_KINDS
+                                          else model_dict(m, cfg.get("imgdt", "uint16"), extra)))
+                         for m in models]
     return DetectionPipeline(**kw)
 
 
@@ -326,6 +376,25 @@ def build_readout(cfg: dict, how: str = "list"):
         return ro
     if how == "string":
         return Readout(times="numpy.array(%r)" % (ts,), start_time=st, non_destructive=cfg["nd"])
+    if how == "scalar" and len(ts) == 1:
+        return Readout(times=ts[0], start_time=st, non_destructive=cfg["nd"])
+    if how in ("npyfile", "txtfile") and ts:
+        import tempfile
+        d = tempfile.mkdtemp(prefix="sched_", dir=os.environ.get("VERIF_WORK", VERIF + "/.work"))
+        if how == "npyfile":
+            f = os.path.join(d, "times.npy")
+            np.save(f, np.array(ts, dtype=float))
+        else:
+            f = os.path.join(d, "times.txt")
+            with open(f, "w") as fh:
+                fh.write("\n".join(repr(float(t)) for t in ts) + "\n")
+        try:
+            return Readout(times_from_file=f, start_time=st, non_destructive=cfg["nd"])
+        finally:
+            import shutil
+            shutil.rmtree(d, ignore_errors=True)
+    if how in ("scalar", "npyfile", "txtfile"):
+        return Readout(times=ts, start_time=st, non_destructive=cfg["nd"])
     raise ValueError(how)
 
 
@@ -350,9 +419,11 @@ def yaml_document(cfg: dict, order: str = "canonical", seed: int = 0, mode: str 
         mode: {"readout": {"times": times_seconds(cfg), "start_time": cfg["start"] / TICK,
                            "non_destructive": bool(cfg["nd"])}},
         f"{kind}_detector": {
-            "geometry": {"row": rows, "col": cols},
+            "geometry": {"row": rows, "col": cols, "pixel_vert_size": 10.0, "pixel_horz_size": 16.0,
+                         "total_thickness": 40.0},
             "environment": {"temperature": 200.0},
-            "characteristics": {},
+            "characteristics": ({"roic_gain": 1.0, "avalanche_gain": 2.0, "pixel_reset_voltage": 5.0}
+                                if kind == "apd" else {}),
         },
         "pipeline": pipe,
     }
